@@ -480,7 +480,39 @@ func genBundle(g *Gen, o BundleOpts) *Bundle {
 	if len(resps) > 0 {
 		root["responses"] = resps
 	}
+	if !b.plus {
+		// W: every $ref resolves.  A planted scenario may have replaced a root definition that anonymous pointers
+		// generated earlier designate: such a pointer is turned into a plain schema.
+		if n := sanitizeLocalRefs(root, root); n > 0 {
+			g.hit("sanitized:dangling-local-pointer")
+		}
+	}
 	return &Bundle{Root: root, Aux: aux, Feat: g.feat, MustFail: mustFail, Plus: plusWhat}
+}
+
+// sanitizeLocalRefs replaces every {"$ref": "#/…"} of node that does not resolve in root by {"type": "string"}.
+func sanitizeLocalRefs(root M, node any) int {
+	n := 0
+	switch v := node.(type) {
+	case map[string]any:
+		if r, ok := v["$ref"].(string); ok && strings.HasPrefix(r, "#/") {
+			if _, ok := ptrResolve(map[string]any(root), ptrTokens(strings.TrimPrefix(r, "#"))); !ok {
+				for k := range v {
+					delete(v, k)
+				}
+				v["type"] = "string"
+				return 1
+			}
+		}
+		for _, c := range v {
+			n += sanitizeLocalRefs(root, c)
+		}
+	case []any:
+		for _, c := range v {
+			n += sanitizeLocalRefs(root, c)
+		}
+	}
+	return n
 }
 
 // simpleItems: a simple-schema items object (parameters, headers), possibly nested, with patterns and enums so that the
@@ -742,7 +774,7 @@ func (b *bgen) injectScenario(name string, rootDefs, paths M, aux map[string]M, 
 			return
 		}
 		ap := b.auxPaths[0]
-		lo := g.pick([]string{"item", "line item", "geo/point", "t~ag"})
+		lo := g.pick([]string{"item", "twin item", "tw/in", "tw~in"}) // names no other auxiliary document uses (W: colliding imports are $ref-free)
 		up := strings.ToUpper(lo[:1]) + lo[1:]
 		aux[ap]["definitions"].(M)[lo] = M{"type": "object", "properties": M{"lower": M{"type": "string"}}}
 		aux[ap]["definitions"].(M)[up] = M{"type": "object", "properties": M{"upper": M{"type": "integer"}}}
@@ -968,7 +1000,18 @@ func (b *bgen) injectPlus(rootDefs, paths M, aux map[string]M) (mustFail bool, w
 			if len(b.auxPaths) > 0 {
 				ap := b.auxPaths[0]
 				rn := b.rootDefs[g.n(len(b.rootDefs))]
-				aux[ap]["definitions"].(M)[rn] = M{"type": "object", "properties": M{"self": M{"$ref": "#/definitions/" + jsonPtrEscape(rn)}, "other": b.bschema(ap, 1, 0.6)}}
+				self := M{"$ref": "#/definitions/" + jsonPtrEscape(rn)}
+				switch g.n(3) {
+				case 0:
+					aux[ap]["definitions"].(M)[rn] = M{"type": "object", "properties": M{"self": self, "other": b.bschema(ap, 1, 0.6)}}
+				case 1:
+					// the colliding import is an array of itself: re-inlined by stripOAIGen, it becomes a cyclic Go structure
+					aux[ap]["definitions"].(M)[rn] = M{"type": "array", "items": self}
+					what = append(what, "collision-array-of-itself")
+				default:
+					aux[ap]["definitions"].(M)[rn] = M{"type": "object", "additionalProperties": self}
+					what = append(what, "collision-map-of-itself")
+				}
 				addPath(M{"$ref": relRef("", ap) + "#/definitions/" + urlFragEscape(jsonPtrEscape(rn))})
 				what = append(what, "collision-with-refs")
 			}
